@@ -37,7 +37,9 @@ LEVEL_NOTE = ("Theorems are about the Gallina model Lang/VisitorModel.v of lang/
 RULE = ("documents from harness/gen_docs_full.py (executable + type-system, every node class) and "
         "gen_exec.py; per document: an all-keep pass (plain, dispatching, chains of 2-3), and for node "
         "positions (3 random in quick, every position in thorough) one delete, one replace by a fresh "
-        "node of the same class, one skip; chains of 1-3 recording visitors with independent rule "
+        "node of the same class, one skip, and (value / type / selection positions) one replace by a "
+        "fresh node of ANOTHER class of the slot family, also in chains with recorders around the "
+        "transformer; chains of 1-3 recording visitors with independent rule "
         "tables; the three ast_transforms visitors; class tables probed per class. non-trivial = the "
         "case edits or skips a node, or uses a chain/dispatching visitor; distinct = distinct "
         "(text, chain rules); a location-erased stream (every node loc = None as after parse(no_location=True) "
